@@ -15,6 +15,7 @@
   Modelling abstraction (see Model/Cast.lean): `i << BIT_SHIFT` is `i * w`.
 -/
 import Bnum.Lemmas.Cast
+import Bnum.Lemmas.C09Extra
 namespace Bnum.C09
 open Bnum
 
@@ -138,5 +139,106 @@ theorem cast_signed_value {w n : Nat} {x : List Nat} (hx : WF w n x) :
   · exact S_eq_wrapS hx (k := 0) (by simp)
   · obtain ⟨k, hk⟩ := S_spec hx
     exact U_eq_wrapU hx (k := k) (by simpa [II.castUnsigned, II.toBits] using hk)
+
+/-! ### `As::as_` — "Casting with As/CastFrom": the blanket `impl<U> As for U` delegates to the
+    `CastFrom` impl selected by trait resolution, so every `CastFrom` theorem above holds for `as_` -/
+theorem as_eq_cast_from {σ τ : Type} (castFrom : σ → τ) (x : σ) : as_ castFrom x = castFrom x := rfl
+
+/-- `x.as_::<D>()` between bnum types: source value modulo `2^BITS` of `D`, never panics -/
+theorem as_bnum {w₁ n₁ w₂ : Nat} {x : List Nat} (s₁ s₂ : Bool) {n₂ : Nat} (hw₁ : 1 ≤ w₁)
+    (hw₂ : 1 ≤ w₂) (hn₁ : 1 ≤ n₁) (hn₂ : 1 ≤ n₂) (hdvd : w₁ ∣ w₂ ∨ w₂ ∣ w₁) (hx : WF w₁ n₁ x) :
+    CastOk w₂ n₂ (as_ (fun x => castBnum w₁ s₁ x w₂ n₂ s₂) x) (valOf s₁ w₁ x) :=
+  cast_bnum s₁ s₂ hw₁ hw₂ hn₁ hn₂ hdvd hx
+example : WF 32 1 [0xfffffffe] ∧
+    as_ (fun x => castBnum 32 true x 8 5 true) [0xfffffffe] = .ok [0xfe, 0xff, 0xff, 0xff, 0xff] := by decide
+
+/-- `x.as_::<$int>()`, bnum → primitive -/
+theorem as_to_prim {w n : Nat} {x : List Nat} (s : Bool) (hw : 1 ≤ w) (hn : 1 ≤ n)
+    (hx : WF w n x) (t : PTy) :
+    as_ (fun x => castToPrim w s x t) x = .ok (wrapU (B t.bits) (valOf s w x)) :=
+  cast_to_prim s hw hn hx t
+example : WF 8 3 [0x01, 0x80, 0xff] ∧
+    as_ (fun x => castToPrim 8 true x ⟨16, false⟩) [0x01, 0x80, 0xff] = .ok 0x8001 := by decide
+
+/-- `p.as_::<BUint<N>>()` / `p.as_::<BInt<N>>()`, primitive → bnum -/
+theorem as_from_prim {w n : Nat} {t : PTy} {p : Nat} (s : Bool) (hn : 1 ≤ n)
+    (hk : 1 ≤ t.bits) (hp : p < B t.bits) :
+    CastOk w n (as_ (castFromPrim w n s t) p) (PInt.val t p) := cast_from_prim s hn hk hp
+example : (0x80 : Nat) < B 8 ∧ as_ (castFromPrim 8 3 true ⟨8, true⟩) 0x80 = .ok [0x80, 0xff, 0xff] := by decide
+
+/-! ### primitive → primitive (`primitive_cast_impl!`: `from as Self`) -/
+
+/-- the pattern of the result is the source value modulo `2^(target BITS)` (and is a pattern of the
+    target type); a total function, so it cannot panic -/
+theorem cast_prim {t₁ t₂ : PTy} {p : Nat} (hp : p < B t₁.bits) :
+    castPrim t₁ t₂ p < B t₂.bits ∧ castPrim t₁ t₂ p = wrapU (B t₂.bits) (PInt.val t₁ p) :=
+  ⟨C09X.pcast_lt t₁.signed hp, C09X.pcast_spec t₁.signed hp⟩
+example : (0x80 : Nat) < B 8 ∧ PInt.val ⟨8, true⟩ 0x80 = -128 ∧
+    castPrim ⟨8, true⟩ ⟨16, false⟩ 0x80 = 0xff80 ∧ castPrim ⟨16, false⟩ ⟨8, true⟩ 0x1234 = 0x34 := by decide
+
+/-! ### "zero-extended … sign-extended … truncated": value preservation for primitive targets and sources -/
+
+/-- bnum → primitive: whenever the source value is representable in `$int`, the result denotes
+    exactly that value (and is a pattern of `$int`) -/
+theorem cast_to_prim_value {w n : Nat} {x : List Nat} (s : Bool) (hw : 1 ≤ w) (hn : 1 ≤ n)
+    (hx : WF w n x) (t : PTy) (hrep : repOf t.signed (B t.bits) (valOf s w x)) :
+    ∃ r, castToPrim w s x t = .ok r ∧ r < B t.bits ∧ PInt.val t r = valOf s w x :=
+  ⟨_, cast_to_prim s hw hn hx t, wrapU_lt (B_pos _) _, C09X.pval_wrapU hrep⟩
+example : repOf true (B 8) (valOf true 8 [0x80, 0xff, 0xff]) ∧
+    castToPrim 8 true [0x80, 0xff, 0xff] ⟨8, true⟩ = .ok 0x80 ∧ PInt.val ⟨8, true⟩ 0x80 = -128 := by decide
+
+/-- bnum → signed primitive: the result denotes the source value wrapped into the signed range -/
+theorem cast_to_prim_signed {w n : Nat} {x : List Nat} (s : Bool) (hw : 1 ≤ w) (hn : 1 ≤ n)
+    (hx : WF w n x) (k : Nat) :
+    ∃ r, castToPrim w s x ⟨k, true⟩ = .ok r ∧ PInt.val ⟨k, true⟩ r = wrapS (B k) (valOf s w x) :=
+  ⟨_, cast_to_prim s hw hn hx ⟨k, true⟩, rfl⟩
+example : castToPrim 8 false [0x80, 0x01] ⟨8, true⟩ = .ok 0x80 ∧ wrapS (B 8) (valOf false 8 [0x80, 0x01]) = -128 := by
+  decide
+
+/-- primitive → bnum: whenever the primitive's value is representable in the target type, the result
+    denotes exactly that value (zero-extension of unsigned, sign-extension of signed sources) -/
+theorem cast_from_prim_value {w n : Nat} {t : PTy} {p : Nat} (s : Bool) (hn : 1 ≤ n)
+    (hk : 1 ≤ t.bits) (hp : p < B t.bits)
+    (hrep : if s then repS (M w n) (PInt.val t p) else repU (M w n) (PInt.val t p)) :
+    ∃ r, castFromPrim w n s t p = .ok r ∧ WF w n r ∧ valOf s w r = PInt.val t p :=
+  (cast_from_prim s hn hk hp).value s hrep
+example : (if true then repS (M 16 2) (PInt.val ⟨8, true⟩ 0xfe) else repU (M 16 2) (PInt.val ⟨8, true⟩ 0xfe)) ∧
+    castFromPrim 16 2 true ⟨8, true⟩ 0xfe = .ok [0xfffe, 0xffff] ∧ valOf true 16 [0xfffe, 0xffff] = -2 := by decide
+
+/-- primitive → signed bnum: the source value wrapped into the signed range -/
+theorem cast_from_prim_signed {w n : Nat} {t : PTy} {p : Nat} (hn : 1 ≤ n)
+    (hk : 1 ≤ t.bits) (hp : p < B t.bits) :
+    ∃ r, castFromPrim w n true t p = .ok r ∧ S w r = wrapS (M w n) (PInt.val t p) :=
+  (cast_from_prim true hn hk hp).signed
+example : castFromPrim 8 1 true ⟨16, false⟩ 0x1280 = .ok [0x80] ∧ wrapS (M 8 1) (PInt.val ⟨16, false⟩ 0x1280) = -128 := by
+  decide
+
+/-! ### reinterpretations observed through `is_negative` and through the same-width `As` cast -/
+
+/-- the sign of `from_bits(x)` / `x.cast_signed()` is bit `BITS - 1` of the pattern -/
+theorem cast_signed_is_negative {w n : Nat} {x : List Nat} (hw : 1 ≤ w) (hn : 1 ≤ n) (hx : WF w n x) :
+    isNegative w (UI.castSigned x) = decide (M w n ≤ 2 * U w x) ∧
+    isNegative w (II.fromBits x) = decide (M w n ≤ 2 * U w x) :=
+  ⟨C09X.isNegative_pattern hw hn hx, C09X.isNegative_pattern hw hn hx⟩
+example : WF 8 2 [0x34, 0x80] ∧ isNegative 8 (UI.castSigned [0x34, 0x80]) = true ∧ M 8 2 ≤ 2 * U 8 [0x34, 0x80] := by
+  decide
+
+/-- the four reinterpretations agree with the `As` cast between `BUint<N>` and `BInt<N>` of the same
+    digit type and digit count -/
+theorem reinterp_eq_as {w n : Nat} {x : List Nat} (hw : 1 ≤ w) (hn : 1 ≤ n) (hx : WF w n x) :
+    castBnum w false x w n true = .ok (UI.castSigned x) ∧ castBnum w false x w n true = .ok (II.fromBits x) ∧
+    castBnum w true x w n false = .ok (II.castUnsigned x) ∧ castBnum w true x w n false = .ok (II.toBits x) := by
+  obtain ⟨r, h1, hr, hu⟩ := cast_bnum false true hw hw hn hn (Or.inl (Nat.dvd_refl w)) hx
+  obtain ⟨r', h2, hr', hu'⟩ := cast_bnum true false hw hw hn hn (Or.inl (Nat.dvd_refl w)) hx
+  have e1 : r = x := U_injective hr hx (by
+    rw [hu]; unfold valOf; simp only [Bool.false_eq_true, if_false]
+    rw [wrapU_natCast, Nat.mod_eq_of_lt (U_lt hx)])
+  have e2 : r' = x := U_injective hr' hx (by
+    rw [hu']; unfold valOf; simp only [if_true]
+    obtain ⟨k, hk⟩ := S_spec hx
+    exact (U_eq_wrapU hx hk).symm)
+  subst e1; subst e2
+  exact ⟨h1, h1, h2, h2⟩
+example : WF 8 2 [0x34, 0x80] ∧ castBnum 8 true [0x34, 0x80] 8 2 false = .ok (II.toBits [0x34, 0x80]) := by decide
 
 end Bnum.C09
